@@ -13,7 +13,8 @@ rm -rf $wt; git -C /repo worktree prune; git -C /repo worktree add -q --detach $
 mod=$(echo $copy_to | cut -d/ -f1)
 pkgdir=$(dirname $copy_to)
 testname=$(grep -o 'func Test[A-Za-z0-9_]*' $demo | head -1 | sed 's/func //')
-run_demo() { (cd $wt/$mod && timeout 300 go test -vet=off -count=1 -run "^${testname}\$" ./${pkgdir#$mod/}/ 2>&1 | tail -5); }
+rel=${pkgdir#$mod}; rel=${rel#/}; [ -z "$rel" ] && rel=.
+run_demo() { (cd $wt/$mod && timeout 300 go test -vet=off -count=1 -run "^${testname}" ./$rel/ 2>&1 | tail -5); }
 cp $demo $wt/$copy_to
 echo "== demo WITHOUT change"; run_demo > /tmp/sv_$name.without.txt; tail -2 /tmp/sv_$name.without.txt
 without_ok=$(grep -c '^ok' /tmp/sv_$name.without.txt)
